@@ -19,7 +19,9 @@ def run(ck, ctx):
     ck.rule("R17.4", "connection-level rejections never reach execution: in try_execute_command the ACL-denied and parse-error arms "
                      "do not call state.execute")
     ck.nd("scripts (EVAL/EVALSHA): effects happen inside mlua callbacks; Redis itself keeps partial effects of a failing script")
-    ck.nd("value-dependent failures after a write that are excluded only by type correlation (error->write order is not checked)")
+    ck.rule("R17.5", "no write after the error reply was chosen: a visible write site reachable from the construction of an error reply "
+                     "(the clean-up step that follows the `match`) must be excluded on that path by the types: it is guarded by "
+                     "`value is variant V` while the error was chosen under `value is not V`")
     ck.assume("a variant classified read-only under *some* field condition is required to have a write-free handler "
               "(no correlation between pattern fields and handler branches)")
     for cfg in ctx.configs:
@@ -30,6 +32,7 @@ def run(ck, ctx):
         _r171(ck, prog, cfg, writers)
         _r172(ck, prog, cfg, writers)
         _r174(ck, prog, cfg)
+        _r175(ck, prog, cfg, writers)
 
 
 def read_only_variants(prog):
@@ -200,3 +203,60 @@ def _r174(ck, prog, cfg):
                 dom += 1
     ck.check(dom >= 1, "R17.4", "execute-after-acl-ok" + _tag(cfg), "no state.execute call is guarded by the ACL check", fn.where(),
              detail="%d execute site(s) dominated by ACL Ok" % dom)
+
+
+def _vguards(prog, f, b, depth=0):
+    """variants of redis::data::Value known (pos) / excluded (neg) at block b, seen through `matches!`-style flag variables"""
+    from .facts import op_place
+    names = [v["n"] for v in prog.adts["redis::data::value::Value"]["variants"]]
+    pos, neg = set(), set()
+    for g in lib2.guards(f, b):
+        si = g["si"]
+        if not si:
+            continue
+        if si["kind"] == "discr" and si["ty"] == "redis::data::value::Value":
+            if g["value"] == "else":
+                neg |= {names[int(v)] for v in g["neg_values"]}
+            else:
+                pos.add(names[int(g["value"])])
+        elif si["kind"] == "val" and lib2.guard_is_true(g) and si.get("local") is not None and depth < 2:
+            defs = f.defs().get(si["local"], [])
+            if len(defs) == 1 and defs[0][2] == "assign" and defs[0][3]["k"] == "use" and "c" not in defs[0][3]["a"]:
+                pl = op_place(defs[0][3]["a"])
+                if pl is not None and "p" not in pl:
+                    defs = f.defs().get(pl["l"], [])
+            trues = [d for d in defs if d[2] == "assign" and d[3]["k"] == "use" and d[3]["a"].get("c", "").strip() in ("const true", "true")]
+            others = [d for d in defs if d not in trues]
+            if trues and all(d[2] == "assign" and d[3]["k"] == "use" and d[3]["a"].get("c", "").strip() in ("const false", "false") for d in others):
+                ps = None
+                for d in trues:
+                    p2, _ = _vguards(prog, f, d[0], depth + 1)
+                    ps = p2 if ps is None else ps & p2
+                pos |= (ps or set())
+    return pos, neg
+
+
+def _r175(ck, prog, cfg, writers):
+    from . import c01
+    meths = effects.executor_methods(prog)
+    n = 0
+    for m, f in c01._bodies(prog, meths):
+        es = effects.error_sites(f)
+        if not es:
+            continue
+        ws = effects.write_sites(prog, f, writers)
+        for k, (eb, ln, txt) in enumerate(es):
+            epos, eneg = _vguards(prog, f, eb)
+            for w in ws:
+                if w["b"] not in f.reach([eb]):
+                    continue
+                if f.short in effects.EXEMPT_METHODS:
+                    continue
+                n += 1
+                wpos, wneg = _vguards(prog, f, w["b"])
+                excluded = bool(wpos & eneg) or bool(wpos and epos and not (wpos & epos))
+                ck.check(excluded, "R17.5", "%s:error#%d->%s%s" % (f.short, k, w["what"].rsplit("::", 1)[-1], _tag(cfg)),
+                         "after the error reply %s was chosen (line %s) the handler can still write (%s at line %s) and nothing ties that write "
+                         "to a value type the error path excludes: a command that answers with an error changes the keyspace"
+                         % (txt[:48], ln, w["what"].rsplit("::", 1)[-1], w["ln"]), f.where(w["ln"]), detail="write guarded by the variant the error arm excludes")
+    ck.floor("R17.5" + _tag(cfg), n, 6)
